@@ -25,9 +25,9 @@ EDGES = {("none", "pending"), ("pending", "in_flight"), ("in_flight", "pending")
          ("in_flight", "skipped")}
 TERMINAL = {"synced", "skipped", "failed", "none"}
 ACTIONS = ("StartPass", "StopFaults", "Recover", "Discover", "Page", "Reconcile", "MarkPresent", "MarkConflict",
-           "Send", "Put", "After", "Fail", "Crash", "Env")
+           "Send", "Put", "PutCancel", "After", "Fail", "Crash", "Env")
 MUST_APPLY = ("crash", "reconcile:drop", "reconcile:dropAfter", "put:dropBefore", "put:dropAfter", "put:short", "put:shortDrop",
-              "put:corrupt", "put:backpressure", "put:idxfail", "env:spokevanish", "env:hubvanish",
+              "put:corrupt", "put:backpressure", "put:idxfail", "put:cancel", "put:cancelAfter", "restart", "env:spokevanish", "env:hubvanish",
               "env:hubcompact", "env:foreign", "env:foreignraw")
 
 
@@ -110,10 +110,10 @@ def run(ctx):
 
     g1 = ctx.tlc("edgesync", "EdgeSync", "Gen_one.cfg" if quick else "Gen_one_large.cfg", timeout=2400, workers=6)
     n1 = take(g1, "one")
-    g2 = ctx.tlc("edgesync", "EdgeSync", "Gen_small.cfg", mode="simulate", num=150 if quick else 1000, depth=400,
+    g2 = ctx.tlc("edgesync", "EdgeSync", "Gen_small.cfg", mode="simulate", num=100 if quick else 1000, depth=400,
                  timeout=2400, workers=4)
     n2 = take(g2, "sim")
-    g3 = ctx.tlc("edgesync", "EdgeSync", "Gen_hub.cfg", mode="simulate", num=100 if quick else 600, depth=400,
+    g3 = ctx.tlc("edgesync", "EdgeSync", "Gen_hub.cfg", mode="simulate", num=60 if quick else 600, depth=400,
                  timeout=2400, workers=4)
     n3 = take(g3, "simhub")
     # complete two-file graph for the lost-acknowledgement x hub-side-loss corner (no crash, drop faults only)
